@@ -29,7 +29,7 @@ import (
 // Instrumented reports whether the library under test carries yield points.
 const Instrumented = true
 
-func installHook() { zzsimyield.Hook = yieldHook }
+func installHook() { zzsimyield.Hook, zzsimyield.LockHook = yieldHook, lockHook }
 
 // libraryGlobals returns pointers to every package-level variable of every
 // library package (from the files the instrumenter generates).
